@@ -187,6 +187,15 @@ def run(ck: common.Check):
     nrand = 3000 if ck.quick else 60000
     for i in range(nrand):
         cases.append(random_case(ck.rng, big=(i % 10 == 0)))
+    if not ck.quick:
+        # sampled digraphs on 5 nodes x all 52 labellings up to renaming
+        pairs5 = [(a, b) for a in range(5) for b in range(5) if a != b]
+        parts5 = list(set_partitions(5))
+        for _ in range(4000):
+            k = ck.rng.getrandbits(len(pairs5)) & ck.rng.getrandbits(len(pairs5))  # sparse
+            edges = [list(p) for i, p in enumerate(pairs5) if k >> i & 1]
+            for lab in parts5:
+                cases.append({"nodes": list(range(5)), "labels": [10 + x for x in lab], "edges": edges})
     # self loops / duplicate edges / duplicate node ids: correspondence only
     extra = [
         {"nodes": [1, 2], "labels": [5, 5], "edges": [[1, 1], [1, 2], [1, 2]]},
